@@ -38,6 +38,15 @@ PRODUCERS = [
     ("as_bytes", "shared", ["let h = v.as_bytes();"], False),
     ("element_downcast_ref", "shared", ["let h = v.at(0).downcast_ref::<String>().unwrap();"], False),
     ("lazy_clone_of_element_ref", "shared", ["let e = v.at(0);", "let h = e.lazy_clone();"], True),
+    ("get_unchecked", "shared", ["let h = unsafe { v.get_unchecked(0) };"], False),
+    ("downcast_ref_unchecked", "shared", ["let h = unsafe { v.downcast_ref_unchecked::<String>() };"], False),
+    ("element_ref_clone", "shared", ["let h = v.at(0).clone();"], False),
+    ("iter_clone", "shared", ["let h = v.iter().clone();"], False),
+    ("iter_item", "shared", ["let h = v.iter().next().unwrap();"], False),
+    ("iter_item_back", "shared", ["let h = v.iter().next_back().unwrap();"], False),
+    ("element_downcast_ref_unchecked", "shared", ["let h = unsafe { v.at(0).downcast_ref_unchecked::<String>() };"], False),
+    ("typed_get_unchecked", "shared", ["let h = unsafe { v.downcast_ref::<String>().unwrap().get_unchecked(0) };"], False),
+    ("typed_as_ptr_slice", "shared", ["let h = v.downcast_ref::<String>().unwrap().as_slice().first().unwrap();"], False),
     ("typed_at", "shared", ["let h = v.downcast_ref::<String>().unwrap().at(0);"], False),
     ("typed_get", "shared", ["let h = v.downcast_ref::<String>().unwrap().get(0).unwrap();"], False),
     ("typed_iter", "shared", ["let h = v.downcast_ref::<String>().unwrap().iter();"], False),
@@ -52,6 +61,15 @@ PRODUCERS = [
     ("as_bytes_mut", "exclusive", ["let mut h = v.as_bytes_mut();"], False),
     ("spare_bytes_mut", "exclusive", ["let mut h = v.spare_bytes_mut();"], False),
     ("element_downcast_mut", "exclusive", ["let mut h = v.at_mut(0).downcast_mut::<String>().unwrap();"], False),
+    ("get_unchecked_mut", "exclusive", ["let mut h = unsafe { v.get_unchecked_mut(0) };"], False),
+    ("downcast_mut_unchecked", "exclusive", ["let mut h = unsafe { v.downcast_mut_unchecked::<String>() };"], False),
+    ("iter_mut_item", "exclusive", ["let mut h = v.iter_mut().next().unwrap();"], False),
+    ("iter_mut_item_back", "exclusive", ["let mut h = v.iter_mut().next_back().unwrap();"], False),
+    ("typed_get_unchecked_mut", "exclusive", ["let mut h = unsafe { v.downcast_mut::<String>().unwrap().get_unchecked_mut(0) };"], False),
+    ("drain_item", "exclusive", ["let mut h = v.drain(..).next().unwrap();"], False),
+    ("splice_item", "exclusive", ["let mut h = v.splice(.., [w(\"x\")]).next().unwrap();"], False),
+    ("pop_downcast_ref", "exclusive", ["let mut p = v.pop().unwrap();", "let h = p.downcast_ref::<String>().unwrap();"], False),
+    ("remove_as_bytes", "exclusive", ["let mut p = v.remove(0);", "let h = p.as_bytes();"], False),
     ("typed_at_mut", "exclusive", ["let mut h = v.downcast_mut::<String>().unwrap().at_mut(0);"], False),
     ("typed_get_mut", "exclusive", ["let mut h = v.downcast_mut::<String>().unwrap().get_mut(0).unwrap();"], False),
     ("typed_iter_mut", "exclusive", ["let mut h = v.downcast_mut::<String>().unwrap().iter_mut();"], False),
